@@ -116,6 +116,9 @@ def check(index, ctx):
     if not stateful:
         ctx.ok("S", "transforms applied by backward / mtl_backward", f"no attribute store outside constructors on any of the {sum(len(r.results) for r in rs)} paths", "")
     for run in rs:
+        for res in _pipe.lost_paths(run):
+            # what was seen before the analysis lost track of the path still counts (the path itself is reported as abandoned)
+            n += _layout.check_layout(ctx, "L", res, only_functions=(BLOCKS,), row_order=lambda run=run: _inst.verdict(index, run.entry, "order", chunk=bool(run.variant.get("chunk"))), only_violations=True)
         for res in _pipe.main_paths(run):
             if _pipe.blocking(res):
                 e = _pipe.blocking(res)[0]
